@@ -48,12 +48,23 @@ func genC06(r *mrand.Rand, idx int) c06Case {
 	c := c06Case{Enc: gen.Pick(r, []string{"quoted-printable", "base64", "8bit"})}
 	n := 1 + r.Intn(12)
 	seq := 0
-	newAddr := func(kind string) string {
+	var used []string
+	fresh := func(kind string) string {
 		seq++
 		if kind == "Bcc" {
 			return fmt.Sprintf("bcc-%d-%d-%08x@hidden.example", idx, seq, r.Uint32())
 		}
 		return fmt.Sprintf("%s%d-%d@%s.example", strings.ToLower(kind), idx, seq, gen.Pick(r, []string{"one", "two", "three"}))
+	}
+	// one in six addresses is one that is on the message already, in the same or another list (the same person in
+	// To and Bcc, twice in Cc, ...): the envelope has one RCPT per occurrence
+	newAddr := func(kind string) string {
+		if len(used) > 0 && r.Intn(6) == 0 {
+			return gen.Pick(r, used)
+		}
+		a := fresh(kind)
+		used = append(used, a)
+		return a
 	}
 	valid := func(kind string, op *c06Op, formatted bool) {
 		name := gen.Pick(r, c06Names)
@@ -307,7 +318,20 @@ func runC06Case(r *ev.Run, c c06Case) {
 	raw := buf.Bytes()
 	root := mimeread.Parse(raw)
 	// (3) no Bcc address anywhere
+	visible := map[string]bool{}
+	for _, k := range []string{"To", "Cc", "ReplyTo", "From", "EnvelopeFrom"} {
+		if k == "EnvelopeFrom" && len(model.lists["From"]) > 0 {
+			continue
+		}
+		for _, a := range model.lists[k] {
+			visible[a.Addr] = true
+		}
+	}
 	for _, b := range model.lists["Bcc"] {
+		if visible[b.Addr] {
+			r.Count("bcc_addresses_also_visible", 1)
+			continue // the same address is also a visible recipient / originator
+		}
 		if bytes.Contains(raw, []byte(b.Addr)) || bytes.Contains(bytes.ToLower(raw), []byte(strings.ToLower(b.Addr))) {
 			viol("bcc-leak:raw", fmt.Sprintf("Bcc address %s appears in the rendered message", b.Addr), ev.Q(raw, 1200))
 		}
@@ -420,7 +444,7 @@ func runC06Case(r *ev.Run, c c06Case) {
 	// the committed payload must not leak Bcc either
 	for _, cm := range commits {
 		for _, b := range model.lists["Bcc"] {
-			if bytes.Contains(cm.Data, []byte(b.Addr)) {
+			if !visible[b.Addr] && bytes.Contains(cm.Data, []byte(b.Addr)) {
 				viol("bcc-leak:committed", "Bcc address in the committed message: "+b.Addr, nil)
 			}
 		}
